@@ -93,11 +93,11 @@ func (l *DBinBlockReader) ReadAsBlockMeta() (*pbbstream.BlockMeta, error) {
 
 func readMessage[T any](reader *DBinBlockReader, decoder func(message []byte) (T, error)) (out T, err error) {
 	message, err := reader.src.ReadMessage()
-	if len(message) > 0 {
+	if err == nil {
 		return decoder(message)
 	}
 
-	if err == io.EOF {
+	if err == io.EOF && len(message) == 0 {
 		return out, err
 	}
 
